@@ -171,7 +171,7 @@ Proof.
   cbn [eval]. intros H.
   apply bind_ok in H. destruct H as (va & s1 & t1 & t2 & Ha & H & ->).
   apply bind_ok in H. destruct H as (vb & s2 & t2' & t3 & Hb & H & ->).
-  destruct va as [x| |]; try discriminate. destruct vb as [y| |]; try discriminate.
+  destruct va as [x| | |]; try discriminate. destruct vb as [y| | |]; try discriminate.
   destruct (arith op bits sg x y) as [z|] eqn:Ez; try discriminate.
   apply ret_ok in H. destruct H as (-> & -> & ->).
   exists x, y, s1, t1, t2'. repeat split; auto. { rewrite app_nil_r; auto. }
@@ -200,13 +200,16 @@ Proof.
   - destruct t0; try discriminate. destruct va; try discriminate. destruct vb; try discriminate.
     destruct (arith op bits signed z z0); try discriminate.
     apply ret_ok in H; destruct H as (-> & -> & ->). rewrite app_nil_r. auto.
-  - destruct va as [x|x|]; destruct vb as [y|y|]; try discriminate.
+  - destruct va as [x|x| |]; destruct vb as [y|y| |]; try discriminate.
     + apply ret_ok in H; destruct H as (-> & -> & ->). rewrite app_nil_r. auto.
     + destruct op; try discriminate; apply ret_ok in H; destruct H as (-> & -> & ->); rewrite app_nil_r; auto.
-  - destruct va as [x| |l]; try discriminate. destruct vb as [y| |]; try discriminate.
-    destruct ((0 <=? y) && (y <? Z.of_nat (length l))); try discriminate.
-    destruct (nth_error l (Z.to_nat y)); try discriminate.
-    apply ret_ok in H; destruct H as (-> & -> & ->). rewrite app_nil_r. auto.
+  - destruct va as [x| |l|d m]; try discriminate.
+    + destruct vb as [y| | |]; try discriminate.
+      destruct ((0 <=? y) && (y <? Z.of_nat (length l))); try discriminate.
+      destruct (nth_error l (Z.to_nat y)); try discriminate.
+      apply ret_ok in H; destruct H as (-> & -> & ->). rewrite app_nil_r. auto.
+    + destruct (key_of vb); try discriminate.
+      apply ret_ok in H; destruct H as (-> & -> & ->). rewrite app_nil_r. auto.
   - destruct va; try discriminate. destruct vb; try discriminate.
     apply ret_ok in H; destruct H as (-> & -> & ->). rewrite app_nil_r. auto.
   - destruct va; try discriminate. destruct vb; try discriminate.
@@ -221,7 +224,7 @@ Lemma and_short_circuit f a b s v s' t :
     else v = VBool false /\ s' = s1 /\ t = t1.
 Proof.
   cbn [eval]. intros H. apply bind_ok in H. destruct H as (va & s1 & t1 & t2 & Ha & H & ->).
-  destruct va as [|[|]|]; try discriminate.
+  destruct va as [|[|]| |]; try discriminate.
   - exists true, s1, t1. split; auto. exists t2; auto.
   - exists false, s1, t1. split; auto. apply ret_ok in H. destruct H as (-> & -> & ->).
     rewrite app_nil_r. auto.
@@ -234,7 +237,7 @@ Lemma or_short_circuit f a b s v s' t :
     else exists t2, eval P ce f b s1 = Ok v s' t2 /\ t = t1 ++ t2.
 Proof.
   cbn [eval]. intros H. apply bind_ok in H. destruct H as (va & s1 & t1 & t2 & Ha & H & ->).
-  destruct va as [|[|]|]; try discriminate.
+  destruct va as [|[|]| |]; try discriminate.
   - exists true, s1, t1. split; auto. apply ret_ok in H. destruct H as (-> & -> & ->).
     rewrite app_nil_r. auto.
   - exists false, s1, t1. split; auto. exists t2; auto.
@@ -246,7 +249,7 @@ Lemma ifexp_one_branch f c a b s v s' t :
     eval P ce f (if vc then a else b) s1 = Ok v s' t2 /\ t = t1 ++ t2.
 Proof.
   cbn [eval]. intros H. apply bind_ok in H. destruct H as (vc & s1 & t1 & t2 & Hc & H & ->).
-  destruct vc as [|[|]|]; try discriminate.
+  destruct vc as [|[|]| |]; try discriminate.
   - exists true, s1, t1, t2. auto.
   - exists false, s1, t1, t2. auto.
 Qed.
@@ -332,7 +335,7 @@ Lemma forin_iterable_once f x e body s q s' t :
     t = t1 ++ t2.
 Proof.
   cbn [exec]. intros H. apply bind_ok in H. destruct H as (va & s1 & t1 & t2 & He & H & ->).
-  destruct va as [| |l]; try discriminate. exists l, s1, t1, t2. auto.
+  destruct va as [| |l|]; try discriminate. exists l, s1, t1, t2. auto.
 Qed.
 
 Lemma fordyn_bound_once f x e bound body s q s' t :
@@ -342,7 +345,7 @@ Lemma fordyn_bound_once f x e bound body s q s' t :
     t = t1 ++ t2.
 Proof.
   cbn [exec]. intros H. apply bind_ok in H. destruct H as (va & s1 & t1 & t2 & He & H & ->).
-  destruct va as [n| |]; try discriminate.
+  destruct va as [n| | |]; try discriminate.
   destruct ((0 <=? n) && (n <=? bound)) eqn:E; try discriminate.
   exists n, s1, t1, t2. repeat split; auto; lia.
 Qed.
@@ -453,10 +456,52 @@ Qed.
 Lemma upd_nth_length {A} n (a : A) l : length (upd_nth n a l) = length l.
 Proof. revert n; induction l; intros n; cbn; auto; destruct n; cbn; auto. Qed.
 
-(* two concrete paths are independent when they diverge at some index (neither is a prefix of the other) *)
-Fixpoint indep (p q : list nat) : bool :=
+(* HashMap contents *)
+Lemma mget_mset_same k v m : mget k (mset k v m) = Some v.
+Proof.
+  induction m as [|[j w] r IH]; cbn.
+  - rewrite Z.eqb_refl; auto.
+  - destruct (Z.eqb k j) eqn:E; cbn; rewrite E; auto.
+Qed.
+
+Lemma mget_mset_other k k' v m : k <> k' -> mget k' (mset k v m) = mget k' m.
+Proof.
+  intros N. induction m as [|[j w] r IH]; cbn.
+  - destruct (Z.eqb k' k) eqn:E; auto. apply Z.eqb_eq in E. congruence.
+  - destruct (Z.eqb k j) eqn:E; cbn.
+    + apply Z.eqb_eq in E. subst j. destruct (Z.eqb k' k) eqn:E2; auto.
+      apply Z.eqb_eq in E2. congruence.
+    + destruct (Z.eqb k' j); auto.
+Qed.
+
+Lemma mlook_mset_same d k v m : mlook d k (mset k v m) = v.
+Proof. unfold mlook. rewrite mget_mset_same. reflexivity. Qed.
+Lemma mlook_mset_other d k k' v m : k <> k' -> mlook d k' (mset k v m) = mlook d k' m.
+Proof. intros N. unfold mlook. rewrite mget_mset_other; auto. Qed.
+
+(* list access by Z index *)
+Lemma zidx_some_range {A} (l : list A) i w : zidx l i = Some w -> 0 <= i < Z.of_nat (length l).
+Proof. unfold zidx. destruct ((0 <=? i) && (i <? Z.of_nat (length l))) eqn:E; [lia | discriminate]. Qed.
+
+Lemma zidx_upd_same {A} (l : list A) i w w' : zidx l i = Some w -> zidx (upd_nth (Z.to_nat i) w' l) i = Some w'.
+Proof.
+  intros H. pose proof (zidx_some_range _ _ _ H) as R. unfold zidx. rewrite upd_nth_length.
+  destruct ((0 <=? i) && (i <? Z.of_nat (length l))) eqn:E; [|lia].
+  apply nth_upd_same. lia.
+Qed.
+
+Lemma zidx_upd_other {A} (l : list A) i j w w' :
+  zidx l i = Some w -> i <> j -> zidx (upd_nth (Z.to_nat i) w' l) j = zidx l j.
+Proof.
+  intros H N. pose proof (zidx_some_range _ _ _ H) as R. unfold zidx. rewrite upd_nth_length.
+  destruct ((0 <=? j) && (j <? Z.of_nat (length l))) eqn:E; auto.
+  apply nth_upd_other. lia.
+Qed.
+
+(* two concrete paths are independent when they diverge at some index / key (neither is a prefix of the other) *)
+Fixpoint indep (p q : list Z) : bool :=
   match p, q with
-  | i :: p', j :: q' => if Nat.eqb i j then indep p' q' else true
+  | i :: p', j :: q' => if Z.eqb i j then indep p' q' else true
   | _, _ => false
   end.
 
@@ -464,12 +509,12 @@ Lemma get_set_same : forall p x v v', set_path p x v = Some v' -> get_path p v' 
 Proof.
   induction p as [|i r IH]; intros x v v' H; cbn in *.
   - inversion H; auto.
-  - destruct v as [| |l]; try discriminate.
-    destruct (nth_error l i) as [w|] eqn:E; try discriminate.
-    destruct (set_path r x w) as [w'|] eqn:E2; try discriminate.
-    inversion H; subst. rewrite nth_upd_same.
-    + eapply IH; eauto.
-    + apply nth_error_Some. congruence.
+  - destruct v as [| |l|d m]; try discriminate.
+    + destruct (zidx l i) as [w|] eqn:E; try discriminate.
+      destruct (set_path r x w) as [w'|] eqn:E2; try discriminate.
+      inversion H; subst. rewrite (zidx_upd_same _ _ _ _ E). eapply IH; eauto.
+    + destruct (set_path r x (mlook d i m)) as [w'|] eqn:E2; try discriminate.
+      inversion H; subst. rewrite mlook_mset_same. eapply IH; eauto.
 Qed.
 
 Lemma get_set_other : forall p q x v v',
@@ -477,27 +522,33 @@ Lemma get_set_other : forall p q x v v',
 Proof.
   induction p as [|i r IH]; intros q x v v' H I; cbn in *; [discriminate|].
   destruct q as [|j q']; [discriminate|].
-  destruct v as [| |l]; try discriminate.
-  destruct (nth_error l i) as [w|] eqn:E; try discriminate.
-  destruct (set_path r x w) as [w'|] eqn:E2; try discriminate.
-  inversion H; subst. cbn.
-  destruct (Nat.eqb i j) eqn:Eij.
-  - apply Nat.eqb_eq in Eij. subst j. rewrite nth_upd_same.
-    + rewrite E. eapply IH; eauto.
-    + apply nth_error_Some. congruence.
-  - apply Nat.eqb_neq in Eij. rewrite nth_upd_other; auto.
+  destruct v as [| |l|d m]; try discriminate.
+  - destruct (zidx l i) as [w|] eqn:E; try discriminate.
+    destruct (set_path r x w) as [w'|] eqn:E2; try discriminate.
+    inversion H; subst. cbn.
+    destruct (Z.eqb i j) eqn:Eij.
+    + apply Z.eqb_eq in Eij. subst j. rewrite (zidx_upd_same _ _ _ _ E). rewrite E. eapply IH; eauto.
+    + apply Z.eqb_neq in Eij. rewrite (zidx_upd_other _ _ _ _ _ E Eij). reflexivity.
+  - destruct (set_path r x (mlook d i m)) as [w'|] eqn:E2; try discriminate.
+    inversion H; subst. cbn.
+    destruct (Z.eqb i j) eqn:Eij.
+    + apply Z.eqb_eq in Eij. subst j. rewrite mlook_mset_same. eapply IH; eauto.
+    + apply Z.eqb_neq in Eij. rewrite mlook_mset_other; auto.
 Qed.
 
-(* a write keeps the shape: every path that was valid stays valid (no aliasing, no resizing) *)
+(* a write keeps the shape: a path can be written exactly when it can be read (no aliasing, no resizing) *)
 Lemma set_path_defined_iff_get : forall p x v, (exists v', set_path p x v = Some v') <-> (exists w, get_path p v = Some w).
 Proof.
   induction p as [|i r IH]; intros x v; cbn.
   - split; eauto.
-  - destruct v as [| |l]; try (split; intros [? ?]; discriminate).
-    destruct (nth_error l i) as [w|]; try (split; intros [? ?]; discriminate).
-    specialize (IH x w). split.
-    + intros [v' H]. destruct (set_path r x w); try discriminate. apply IH. eauto.
-    + intros H. apply IH in H. destruct H as [w' ->]. eauto.
+  - destruct v as [| |l|d m]; try (split; intros [? ?]; discriminate).
+    + destruct (zidx l i) as [w|]; try (split; intros [? ?]; discriminate).
+      specialize (IH x w). split.
+      * intros [v' H]. destruct (set_path r x w); try discriminate. apply IH. eauto.
+      * intros H. apply IH in H. destruct H as [w' ->]. eauto.
+    + specialize (IH x (mlook d i m)). split.
+      * intros [v' H]. destruct (set_path r x (mlook d i m)); try discriminate. apply IH. eauto.
+      * intros H. apply IH in H. destruct H as [w' ->]. eauto.
 Qed.
 
 (* top-level variables: distinct variables (and distinct stores) never alias *)
